@@ -61,7 +61,8 @@ Definition set_failed (t : task) : task :=
 
 Definition task_eqb (a b : task) : bool :=
   tid_eqb (t_id a) (t_id b) && option_eqb N.eqb (t_owner a) (t_owner b) &&
-  Bool.eqb (t_active a) (t_active b) && N.eqb (t_state a) (t_state b) && Bool.eqb (t_idok a) (t_idok b).
+  Bool.eqb (t_active a) (t_active b) && N.eqb (t_state a) (t_state b) && Bool.eqb (t_idok a) (t_idok b) &&
+  N.eqb (t_ch a) (t_ch b).
 (* t_kill is an oracle / a registration inside the task manager: not observable, not compared *)
 
 Definition find_task (id : tid) (r : roster) : option task :=
